@@ -139,6 +139,39 @@ fn verif_serve_loopback()
             None => wrong(req, "no answer".to_string(), &mut bad),
         }
     }
+    /*  a build that runs WHILE the server is up (another process on the same ruler directory): what it records is served too */
+    system.time_passes(1);
+    write_str_to_file(&mut system, "verse.txt", "Sugar is sweet.\n").unwrap();
+    build(system.clone(), &mut EmptyPrinter::new(), params()).unwrap();
+    for rule in rules.iter()
+    {
+        let mut sorted = rule.clone(); sorted.targets.sort(); sorted.sources.sort();
+        let rule_name = rule.get_ticket().human_readable();
+        let mut f = TicketFactory::new();
+        for s in sorted.sources.iter() { let c = read_file_to_string(&system, s).unwrap(); f.input_ticket(TicketFactory::from_str(&c).result()); }
+        let expected : Vec<String> = sorted.targets.iter().map(|t| hash_name(read_file_to_string(&system, t).unwrap().as_bytes())).collect();
+        cases += 1;
+        let req = format!("/rules/{}/{}", rule_name, f.result().human_readable());
+        match get(port, &req)
+        {
+            Some((200, body)) =>
+            {
+                let text = String::from_utf8_lossy(&body).to_string();
+                let lines : Vec<String> = text.split('\n').filter(|l| !l.is_empty()).map(|l| l.to_string()).collect();
+                if lines != expected { wrong(&req, format!("after a build that ran while the server was up: recorded target hashes {:?}, the targets on disk hash to {:?}", lines, expected), &mut bad); }
+            },
+            other => wrong(&req, format!("a pair recorded by a build that ran while the server was up answered {:?}", other.map(|x| x.0)), &mut bad),
+        }
+    }
+    for name in system.list_dir(".ruler/cache").unwrap().iter().map(|p| p.rsplit('/').next().unwrap().to_string())
+    {
+        cases += 1;
+        match get(port, &format!("/files/{}", name))
+        {
+            Some((200, body)) => if hash_name(&body) != name { wrong(&format!("/files/{}", name), "200 with bytes that do not hash to the requested name".to_string(), &mut bad); },
+            other => wrong(&format!("/files/{}", name), format!("hash cached by a build that ran while the server was up answered {:?}", other.map(|x| x.0)), &mut bad),
+        }
+    }
     /*  the server keeps running */
     cases += 1;
     match get(port, &format!("/files/{}", good)) { Some((200, _)) => {}, other => wrong("(after all the above)", format!("a good request answered {:?}", other.map(|x| x.0)), &mut bad) }
